@@ -170,6 +170,39 @@ def gen_random(ctx, N, dirs=DIRS):
         out.append(DirCase(prob, x0, y0, S0, P, rng.random() < 0.6, rng.choice([1e-1, 1e-3, 1e-6, 1e-10, 0.0]), direction, A, Dp, tag=tag, **kw))
     return out
 
+def gen_gamma_changes(ctx, N):
+    """runs in which the step size changes in the middle (changed_γ: reset / rescale of the provider's history): quartic curvature that grows
+    along the path (start near the origin, large linear term), Lipschitz estimate taken at the start; and runs in which an accelerated
+    candidate fails outright (L reaches a small L_max in the candidate, or ψ overflows there): direction.reset() inside the line search"""
+    rng = ctx.rng
+    out = []
+    for i in range(N):
+        direction = rng.choice(["lbfgs", "lbfgs", "anderson", "anderson", "struclbfgs"])
+        n = rng.choice([1, 2, 2, 3, 4]); m = rng.choice([0, 0, 0, 1, 2])
+        prob, kind = sl.gen_problem(rng, "nonconvex", n=n, m=m)
+        prob.c = [t * rng.choice([4.0, 8.0, 16.0]) for t in prob.c]
+        prob.w = [rng.choice([1.0, 2.0, 4.0]) for _ in range(n)]
+        if rng.random() < 0.6:
+            prob.Clb, prob.Cub = [-INF] * n, [INF] * n
+        P = {"max_iter": rng.choice([10, 15, 20, 25]), "crit": rng.choice(sl.CRITS)}
+        lsfail = i % 3 == 2
+        if lsfail:
+            # small L_max: a candidate that needs one more doubling than the current iterate fails; or huge steps (tiny min_div_fac, Lγ close to 1)
+            P["L_0"] = rng.choice([0.5, 1.0, 2.0]); P["L_max"] = P["L_0"] * rng.choice([2.0, 4.0, 8.0])
+        elif rng.random() < 0.5:
+            P["L_0"] = rng.choice([0.25, 1.0, 4.0])
+        if rng.random() < 0.3: P["upd"] = True
+        if rng.random() < 0.15: P["recompute"] = True
+        if rng.random() < 0.15: P["eager"] = True
+        if rng.random() < 0.2: P["tau_min"] = rng.choice([0.25, 0.5])
+        A, Dp = gen_accel(rng, direction)
+        A.pop("cbfgs_eps", None); A.pop("cbfgs_alpha", None)
+        if A.get("memory", 1) == 0: A["memory"] = 2
+        x0 = rng.vec(n, 0.05)
+        y0 = rng.vec(m, 1.0); S0 = [rng.choice([0.5, 1.0, 4.0]) for _ in range(m)]
+        out.append(DirCase(prob, x0, y0, S0, P, True, rng.choice([1e-6, 1e-10, 0.0]), direction, A, Dp, tag=direction + ("/lsfail" if lsfail else "/gamma")))
+    return out
+
 def gen_dyadic(ctx):
     """exactly representable data: boxes that become active exactly on a bound (StructuredLBFGS index sets on ties), γ changes by exact halving"""
     rng = ctx.rng
@@ -216,6 +249,30 @@ def oracle(cs, o):
     if cs.direction == "struclbfgs" and o["lbfgs_rejected"] != 0:
         bad.append(("PANOCDIR:struclbfgs-rejected", "lbfgs_rejected=%d although the update is forced" % o["lbfgs_rejected"]))
     return bad
+
+def near_tie(cs, o, rel=1e-13):
+    """decisions visible in the records that are within `rel` of a tie (PANOC.near_tie uses 1e-9, which classifies every converging run
+    as a QUB tie — ψ̂ − rhs = O(‖p‖²); the provider models follow the C++ operation order, so only last-bit ties can differ)"""
+    V, D = sl.V, sl.D
+    P = cs.P_
+    tol = cs.tol if cs.tol > 0 else 1e-8
+    recs = o.get("records", [])
+    for r in recs:
+        e = D(r, "eps")
+        if math.isfinite(e) and abs(e - tol) <= rel * max(abs(e), tol):
+            return "eps~tol"
+        psi, psih, L, pp = D(r, "psi"), D(r, "psih"), D(r, "L"), D(r, "nsqp")
+        gp = sum(a * b for a, b in zip(V(r, "grad"), V(r, "p")))
+        rhs = psi + gp + 0.5 * L * pp + (1 + abs(psi)) * P("qub_tol")
+        if all(math.isfinite(t) for t in (psih, rhs)) and pp > 0 and abs(psih - rhs) <= rel * (abs(psi) + abs(gp) + L * pp + abs(psih) + 1e-300):
+            return "qub"
+    for a, b in zip(recs, recs[1:]):
+        g, L, phi, pp, phi2 = D(a, "gamma"), D(a, "L"), D(a, "phi"), D(a, "nsqp"), D(b, "phi")
+        if not all(math.isfinite(t) for t in (g, L, phi, pp, phi2)) or g == 0 or pp == 0: continue
+        bound = phi - P("beta") * (1 - g * L) / (2 * g) * pp + (1 + abs(phi)) * P("ls_tol")
+        if abs(phi2 - bound) <= rel * (abs(phi) + abs(phi2) + 1e-300):
+            return "ls"
+    return None
 
 def signature(cs, o):
     recs = o["records"]
@@ -266,7 +323,7 @@ def attach(ctx, scale=0.3, extra_oracle=None):
 
 def run_corr(ctx, prefix, scale, extra_oracle=None):
     if not build_driver(ctx, "solve"): return
-    cases = gen_dyadic(ctx) + gen_random(ctx, max(40, int(scale * ctx.n(300, 3000))))
+    cases = gen_dyadic(ctx) + gen_gamma_changes(ctx, max(20, int(scale * ctx.n(150, 1200)))) + gen_random(ctx, max(40, int(scale * ctx.n(300, 3000))))
     outs = run_driver(ctx, "solve", "".join(c.rq.to_input() for c in cases), timeout=1500)
     if outs is None or len(outs) != len(cases):
         ctx.broke("correspondence", "drv_solve", "driver produced %s results for %d runs rc=%s %s" % (None if outs is None else len(outs), len(cases), getattr(ctx, "driver_rc", "?"), getattr(ctx, "driver_err", "")))
@@ -286,6 +343,13 @@ def run_corr(ctx, prefix, scale, extra_oracle=None):
         ctx.case(signature(cs, o), sample=({"request": cs.rq.describe(), "status": o.get("status"), "iterations": o.get("iterations"), "records": len(o["records"])}
                                           if len(o["records"]) > 3 else None))
         ctx.count("status/" + o.get("status", "exception"))
+        recs = o["records"]
+        if any(sl.D(b, "gamma") < sl.D(a, "gamma") for a, b in zip(recs, recs[1:])) and cs.direction != "noop":
+            ctx.count("runs-with-step-size-change-after-k=0/" + cs.direction + ("+rescale" if cs.direction in ("lbfgs", "anderson") and cs.D_("rescale") else ""))
+        if any(sl.D(r, "tau") > 0 for r in recs if r["status"] == "Busy"):
+            ctx.count("runs-with-accepted-accelerated-step/" + cs.direction)
+        if "exc" not in o and o["lbfgs_rejected"] > 0:
+            ctx.count("runs-with-rejected-update/" + cs.direction)
         terms.append(coq_case(cs, o)); owners.append((cs, o))
     failing = coq_failing_cases(ctx, "panocdirrun", REQUIRES, "dcase", "chkpanocdir", terms, shard=ctx.n(10, 50), dump="modelpanocdir")
     ctx.coverage["panocdir_whole_run_cases"] = len(terms)
@@ -294,7 +358,7 @@ def run_corr(ctx, prefix, scale, extra_oracle=None):
     real, ties = [], 0
     for i in failing:
         cs, o = owners[i]
-        t = None if cs.tag.endswith("/dyadic") or "exc" in o else PANOC.near_tie(cs, o)
+        t = None if cs.tag.endswith("/dyadic") or "exc" in o else near_tie(cs, o)
         if t:
             ties += 1; ctx.count("discarded-near-tie/" + t)
         else:
@@ -302,6 +366,8 @@ def run_corr(ctx, prefix, scale, extra_oracle=None):
     ctx.coverage["panocdir_whole_run_disagreements"] = len(real)
     ctx.coverage["panocdir_disagreements_by_provider"] = {d: sum(1 for i in real if owners[i][0].direction == d) for d in DIRS}
     ctx.coverage["panocdir_discarded_near_ties"] = ties
+    ctx.log("PANOCDIR whole runs: %d cases, %d disagreements %s, %d near ties discarded" %
+            (len(terms), len(real), ctx.coverage["panocdir_disagreements_by_provider"], ties))
     if real:
         cs, o = owners[real[0]]
         sig = ("PANOCDIR:" if prefix == "PANOCDIR" else "%s:panocdir-" % prefix) + "run-differs-from-model:" + cs.direction
